@@ -538,6 +538,21 @@ def depth_pairing(chk, prog):
             continue
         inc = [blk for blk, t in b.calls_to(r"Parser::<'a>::inc_depth$")]
         dec = [blk for blk, t in b.calls_to(r"Parser::<'a>::dec_depth$")]
+        if not inc and not dec:
+            # the two helpers were folded into the container parser (or into a wrapper that was inlined): the same pairing on the counter
+            # itself — `self.depth += 1` / `self.depth -= 1`
+            st_ = prog.structs.get("humphrey_json::parser::Parser", {}).get("fields", [])
+            di_ = next((i for i, x in enumerate(st_) if x["name"] == "depth"), None)
+            for bi_, blk_ in enumerate(b.blocks):
+                for s_ in blk_["stmts"]:
+                    if "pl" in s_ and di_ is not None and [e[1] for e in s_["pl"]["p"] if e[0] == "f"] == [di_]:
+                        d_ = panics._strip(core.describe_rv(prog, b, s_["rv"]) if s_["rv"]["k"] != "use" else describe(prog, b, s_["rv"]["o"]))
+                        if d_[0] == "field" and isinstance(d_[1], tuple) and d_[1][0] == "bin":
+                            d_ = d_[1]
+                        if d_[0] == "bin" and d_[3] == ("lit", 1) and d_[1].startswith("Add"):
+                            inc.append(bi_)
+                        elif d_[0] == "bin" and d_[3] == ("lit", 1) and d_[1].startswith("Sub"):
+                            dec.append(bi_)
         oks = core.ok_return_blocks(b, "Ok")
         chk.ob("R4.depth", fn, "inc_depth is the first thing the container parser does", bool(inc) and all(core.must_pass(b, [0], [x for x, _ in b.calls_to(r"parse_value$")], through_nodes=inc, after_from=False) is None for _ in [0]), "")
         w = core.must_pass(b, inc, oks, through_nodes=dec)
